@@ -50,7 +50,7 @@ func plan(c *lib.Ctx) []Spec {
 	rng.Shuffle(len(rest), func(i, j int) { rest[i], rest[j] = rest[j], rest[i] })
 	kinds = append(kinds, rest...)
 	var out []Spec
-	cutJ := 0
+	cutJ, midJ := 0, 0
 	for _, k := range kinds {
 		sp := Spec{Kind: k, Seed: rng.Int63()}
 		switch k {
@@ -62,10 +62,13 @@ func plan(c *lib.Ctx) []Spec {
 			sp.PerSrc = 8 + rng.Intn(9)
 		case "mid":
 			sp.HistLen = 3 + rng.Intn(8)
+			// two removals, one chat, in turn (a draw would leave the quick tier's ten
+			// scenarios without enough removals at one seed in a few hundred)
 			sp.Where = "remove"
-			if rng.Intn(3) == 0 {
+			if rng.Intn(3); midJ%3 == 2 {
 				sp.Where = "chat"
 			}
+			midJ++
 		case "cut2":
 			// two operators reset together; the first one's cut point: somewhere in its replay
 			// or (half of them) after it
